@@ -233,7 +233,7 @@ def _pick_weighted(rng, weights, allowed):
 
 def gen_case(rng, n_min=3, n_max=9, runner=None, nproc=None, weights=None, p_group=0.3, p_shared=0.5,
              p_dual=0.08, p_dup_sel=0.15, p_ignored=0.07, p_utd=0.18, p_error=0.07, p_failed=0.14, p_exc=0.08,
-             p_teardown=0.25, p_cont=0.4, p_always=0.06, p_calc_deliver=0.7, sel_mode=None, policy=None,
+             p_teardown=0.25, p_cont=0.4, p_always=0.06, p_calc_deliver=0.85, sel_mode=None, policy=None,
              allow_cycle=False, all_ok=False):
     """One random run case.  Graph: 3..9 tasks in a hidden topological order (all edges, static and delivered by calc
     results, go from later to earlier rank, so the graph is acyclic unless allow_cycle), then the definition order is
@@ -349,7 +349,11 @@ def gen_case(rng, n_min=3, n_max=9, runner=None, nproc=None, weights=None, p_gro
         low = min(rank[x] for x in rec)
         cands = [x for x in ranked[:low] if x['name'] != t['name']]
         res = {'task_dep': [], 'file_dep': [], 'calc_dep': []}
-        for _ in range(rng.choice([0, 1, 1, 2])):
+        if rng.random() < 0.6:
+            # most delivering calc tasks really run and succeed (otherwise hardly any run would see a delivery)
+            t['status'], t['outcome'], t['ignored'] = 'run', 'ok', False
+            t['file_dep'] = [f for f in t['file_dep'] if not f.startswith('missing_')]
+        for _ in range(rng.choice([0, 1, 1, 1, 2])):
             if not cands:
                 break
             v = rng.choice(cands)
@@ -404,10 +408,10 @@ def gen_case(rng, n_min=3, n_max=9, runner=None, nproc=None, weights=None, p_gro
             sel += rng.choice([[g, sub], [sub, g]])
         sel = list(dict.fromkeys(sel))
         if rng.random() < p_dup_sel:
-            # a repeated name: usually last (harmless), sometimes in the middle (open finding dup-selection-truncates:
-            # doit then drops the entries after it -- kept rare so that it does not mask other things)
+            # a repeated name: at the end or in the middle (finding dup-selection-truncates, fixed upstream: doit used
+            # to drop the entries after the repetition)
             dup = rng.choice(sel)
-            if rng.random() < 0.2:
+            if rng.random() < 0.5:
                 sel.insert(rng.randint(1, len(sel)), dup)
             else:
                 first = sel.index(dup)
@@ -546,6 +550,12 @@ def count_case(st, case, obs=None):
                 st.count('ev:failure:%s' % e[2])
             elif e[0] in ('skip_ignore', 'skip_uptodate', 'success', 'start', 'teardown', 'runtime_error'):
                 st.count('ev:%s' % e[0])
+        if any(e[0] == 'failure' for e in obs['trace']):
+            st.count('run:failure_under_continue' if case.get('cont') else 'run:cut_short_by_failure')
+        succ = set(e[1] for e in obs['trace'] if e[0] == 'success')
+        if any(m['calcRes'][c] and (m['calcRes'][c]['task'] or m['calcRes'][c]['file'] or m['calcRes'][c]['calc'])
+               for c in succ):
+            st.count('run:calc_result_delivered')
         ws = set(e[2] for e in obs['trace'] if e[0] == 'start')
         if case['runner'] != 'serial':
             st.count('workers_used:%d' % len(ws))
@@ -1883,7 +1893,7 @@ def judge(prop, case, obs, ans, st, shrink_left):
     lean = None
     sel_impl = obs.get('selected') is not None and obs.get('selected') != (case.get('model') or {}).get('sel')
     if sel_impl:
-        st.count('sel_truncated_by_impl')
+        st.count('sel_differs_from_impl')
     if ans is None or 'error' in ans:
         st.count('driver_unavailable')
     else:
@@ -1940,8 +1950,19 @@ def judge(prop, case, obs, ans, st, shrink_left):
                      '%s false on the implementation trace (%s)' % (wit['failed_monitors'], wit['detail']))
         st.count('violation_found')
         return used
+    if sel_impl:
+        st.divergence(make_witness(case, obs, [], py, lean, {'selected_by_impl': obs.get('selected'),
+                                                             'selected_by_harness': (case.get('model') or {}).get('sel')}),
+                      'selection (M8): TaskControl.selected_tasks differs from the harness\' own resolution of the command line')
+        return used
     if lean is not None:
         disagree = [k for k in keys if py.get(k, True) != lean.get(k, True)]
+        if prop == 'C02' and not sel_impl and ans.get('closure') is not None \
+                and sorted(ans['closure']) != sorted(pyclo) and obs['err'] is None \
+                and (case.get('cont') or not any(e[0] == 'failure' for e in obs['trace'])):
+            # (compared on complete runs only: in a run cut short the oracle-based closure of the model may contain
+            # setup-tasks of tasks the implementation never got to ask for their status)
+            disagree.append('closure(lean=%s,python=%s)' % (sorted(ans['closure']), sorted(pyclo)))
         if disagree:
             st.divergence(make_witness(case, obs, disagree, py, lean, pywit),
                           'python and Lean monitors disagree on %s' % disagree)
@@ -1957,18 +1978,42 @@ def judge(prop, case, obs, ans, st, shrink_left):
     return used
 
 
+def run_checked(case, st=None):
+    """run_impl, repeated once when doit crashed before the first event: a deterministic crash of doit reproduces (and
+    is reported); a transient failure of the environment (e.g. the harness source being rewritten while
+    inspect.getsourcelines reads it, EMFILE on a loaded machine) does not and is only counted"""
+    obs = run_impl(case, keep_raw=False)
+    if obs['err'] and obs['err'].startswith('crash:') and not obs['trace']:
+        again = run_impl(case, keep_raw=False)
+        if again['err'] != obs['err']:
+            if st is not None:
+                st.count('transient_crash_not_reproduced:%s' % obs['err'])
+            return again
+    return obs
+
+
 def eval_batch(batch):
     """worker for common.pmap.  batch = {'prop': 'C01'|'C02', 'cases': [case...]} and/or
-    {'gen': [(seed, knobs)...]} and/or {'exhaustive': [case...], 'limit': int}.  Returns common.WorkerStats."""
+    {'gen': [(seed, knobs)...]} and/or {'exhaustive': [case...], 'limit': int}; optional 'deadline' (absolute time): generated
+    cases not started by then are skipped and counted (corpus seeds always run).  Returns common.WorkerStats."""
     st = common.WorkerStats()
     prop = batch['prop']
     common.use_repo()
     pairs = []
+    deadline = batch.get('deadline')
+
+    def late():
+        if deadline is not None and time.time() > deadline:
+            st.count('not_run_budget_exhausted')
+            return True
+        return False
     for c in batch.get('cases', []):
         c = dict(c)
         c['model'] = expand(c)
-        pairs.append((c, run_impl(c, keep_raw=False)))
+        pairs.append((c, run_checked(c, st)))      # corpus seeds always run
     for seed, knobs in batch.get('gen', []):
+        if late():
+            continue
         rng = random.Random(seed)
         knobs = dict(knobs)
         pol = knobs.pop('gen_policy', False)
@@ -1976,8 +2021,10 @@ def eval_batch(batch):
         if pol and c['runner'] == 'thread':
             c['policy'] = gen_policy(rng, c['nproc'])
         c['seed'] = seed
-        pairs.append((c, run_impl(c, keep_raw=False)))
+        pairs.append((c, run_checked(c, st)))
     for c in batch.get('exhaustive', []):
+        if late() and not c.get('corpus'):
+            continue
         c = dict(c)
         c['model'] = expand(c)
         got = []
